@@ -1,7 +1,7 @@
 (** C21 — field square roots and quadratic-residue tests are correct.
     Statements over the prime-field model coq/theories/Sqrt.v of PrimeFieldElement._sqrt / _is_sqr
     (gmpy stubs jacobi / powmod / invert underneath). *)
-Require Import MPyC.Field MPyC.Zp MPyC.FinField MPyC.Sqrt.
+Require Import MPyC.Field MPyC.Zp MPyC.FinField MPyC.Euler MPyC.Sqrt.
 From Coq Require Import ZArith Znumtheory List.
 Import ListNotations.
 Local Open Scope nat_scope.
@@ -18,12 +18,48 @@ Theorem C21_fermat : forall p a, prime p -> (a mod p <> 0)%Z -> (a ^ (p - 1) mod
 Proof. exact fermat. Qed.
 Print Assumptions C21_fermat.
 
-(** Euler's criterion, direction "square => a^((p-1)/2) = 1" (every odd prime).
-    PARTIAL: the converse (a^((p-1)/2) = 1 => a is a square; root-counting argument) is not proved here. *)
-Theorem C21_euler_square_partial : forall p a b, prime p -> p <> 2%Z ->
-  ((b * b) mod p = a mod p)%Z -> (a mod p <> 0)%Z -> (a ^ ((p - 1) / 2) mod p = 1)%Z.
-Proof. exact euler_square. Qed.
-Print Assumptions C21_euler_square_partial.
+(** Euler's criterion, BOTH directions, every odd prime, every a not divisible by p (no primitive roots:
+    the h = (p-1)/2 distinct squares of 1..h exhaust the roots of X^h - 1 by the root bound) *)
+Theorem C21_euler_criterion : forall p a, prime p -> p <> 2%Z -> (a mod p <> 0)%Z ->
+  ((a ^ ((p - 1) / 2) mod p = 1 <-> exists b, (b * b) mod p = a mod p) /\
+   (a ^ ((p - 1) / 2) mod p = 1 \/ a ^ ((p - 1) / 2) mod p = p - 1))%Z.
+Proof. exact euler_criterion. Qed.
+Print Assumptions C21_euler_criterion.
+
+(** the same in any finite field of odd order given by its units (2h of them) and a half-system H *)
+Theorem C21_euler_abstract : forall (K : FieldT) (units : list K),
+  NoDup units -> (forall x, In x units <-> x <> f0 K) ->
+  forall h, length units = 2 * h -> 0 < h ->
+  forall H : list K, length H = h -> NoDup H -> (forall x y, In x H -> In y H -> fadd K x y <> f0 K) ->
+  forall a, a <> f0 K ->
+    (fpow a h = f1 K <-> exists b, fmul K b b = a) /\ (fpow a h = f1 K \/ fpow a h = fopp K (f1 K)).
+Proof. exact euler_abstract. Qed.
+Print Assumptions C21_euler_abstract.
+
+(** the Legendre symbol defined by Euler's test is 0 / +1 / -1 exactly for 0 / nonzero squares / non-squares *)
+Theorem C21_legendre_symbol_spec : forall p a, prime p -> p <> 2%Z ->
+  ((legendre_symbol p a <> -1 <-> exists b, (b * b) mod p = a mod p) /\
+   (legendre_symbol p a = 0 <-> a mod p = 0) /\
+   (legendre_symbol p a = -1 -> a ^ ((p - 1) / 2) mod p = p - 1))%Z.
+Proof. exact legendre_symbol_spec. Qed.
+Print Assumptions C21_legendre_symbol_spec.
+
+(** is_sqr(a) <-> a is a square, EVERY prime p (2 included), every element — relative to the explicit hypothesis
+    that gmpy.legendre (the jacobi loop) returns the Legendre symbol on this input.  That hypothesis is
+    quadratic reciprocity for the binary-free Jacobi algorithm: NOT proved in general; it is discharged by
+    computation for the 46 primes below 200 inside C21_sqrt_is_sqr_bounded. *)
+Theorem C21_is_sqr_correct_if_legendre : forall p a, prime p -> (0 <= a < p)%Z ->
+  (p <> 2%Z -> legendre a p = Ok (legendre_symbol p a)) ->
+  exists s, is_sqr p a = Ok s /\ (s = true <-> exists b, ((b * b) mod p = a)%Z).
+Proof. exact is_sqr_correct_if_legendre. Qed.
+Print Assumptions C21_is_sqr_correct_if_legendre.
+
+(** the Euler test a^((p-1)/2) != p-1 (the test ExtensionFieldElement._is_sqr performs) decides squareness,
+    every prime, every element, unconditionally *)
+Theorem C21_euler_is_sqr_correct : forall p a, prime p -> (0 <= a < p)%Z ->
+  (euler_is_sqr p a = true <-> exists b, ((b * b) mod p = a)%Z).
+Proof. exact euler_is_sqr_correct. Qed.
+Print Assumptions C21_euler_is_sqr_correct.
 
 (** every prime p = 3 (mod 4), every nonzero square a: sqrt(a) is reduced and sqrt(a)^2 = a *)
 Theorem C21_sqrt_p3mod4 : forall p, prime p -> (p mod 4 = 3)%Z -> forall a, (0 < a < p)%Z ->
@@ -47,6 +83,28 @@ Theorem C21_sqrt_p2 : forall a, (0 <= a < 2)%Z -> exists r, sqrt 2 a false = Ok 
 Proof. exact sqrt_p2. Qed.
 Print Assumptions C21_sqrt_p2.
 
+(** Cipolla-Lehmer branch (p = 1 mod 4), loop invariant of the ladder as coded: for EVERY modulus p <> 0, every
+    a, b and every exponent e, the pair (u, v) left by the ladder is X^e = U X + V of Z[X]/(X^2 - b X + a)
+    reduced modulo p (Xpow = iterated multiplication by X over the integers) *)
+Theorem C21_ladder_is_Xpow : forall p a b, p <> 0%Z -> forall e : positive,
+  congp p (ladder p a b e) (Xpow a b (Pos.to_nat e)).
+Proof. exact ladder_is_Xpow. Qed.
+Print Assumptions C21_ladder_is_Xpow.
+
+(** ... hence the value v returned by _sqrt in that branch squares to a, for every prime p, every nonzero
+    square a and every b with b^2 - 4a a non-residue — RELATIVE to the norm identity X^(2e) = a in the quotient
+    ring (2e = p+1; Frobenius: X^p = b - X).  Missing for an unconditional theorem: (i) that identity
+    ((x+y)^p = x^p + y^p in GF(p)[X]/(X^2-bX+a), i.e. the binomial theorem with p | C(p,k)), and (ii) that the b
+    found by the search is a non-residue (jacobi = Legendre symbol, as above).  Both are discharged by
+    computation for p < 200 in C21_sqrt_is_sqr_bounded. *)
+Theorem C21_cipolla_correct_if : forall p, prime p -> forall a b (e : positive),
+  (a mod p <> 0)%Z -> (exists s, (s * s) mod p = a mod p)%Z ->
+  (~ exists c, (c * c) mod p = (b * b - 4 * a) mod p)%Z ->
+  congp p (Xpow a b (Pos.to_nat e + Pos.to_nat e)) (0, a)%Z ->
+  ((snd (ladder p a b e) * snd (ladder p a b e)) mod p = a mod p)%Z.
+Proof. exact cipolla_correct_if. Qed.
+Print Assumptions C21_cipolla_correct_if.
+
 (** BOUNDED (the bound is the explicit list primes200 = the 46 primes below 200; all elements a):
     the whole of _is_sqr / _sqrt including the Cipolla-Lehmer branch (p = 1 mod 4), the search for b and the
     jacobi loop: is_sqr(a) <-> a is a square; for squares sqrt(a)^2 = a; for nonzero squares sqrt(a, INV) is the
@@ -69,4 +127,15 @@ Example C21_nonvacuous :
   prime 11 /\ (11 mod 4 = 3)%Z /\ ((4 * 4) mod 11 = 5)%Z /\ sqrt 11 5 false = Ok 4%Z /\ sqrt 11 5 true = Ok 3%Z /\
   mul 11 3 (El 4) = 1%Z /\ In 13%Z primes200 /\ ((6 * 6) mod 13 = 10)%Z /\ sqrt 13 10 false = Ok 7%Z /\
   ((7 * 7) mod 13 = 10)%Z /\ is_sqr 13 10 = Ok true /\ is_sqr 13 2 = Ok false.
+Proof. split; [apply is_prime_small_correct; reflexivity|]. vm_compute. repeat split; auto 20. Qed.
+
+(** Non-vacuity of the new statements: p = 7: 2 = 3^2 has 2^3 = 1, 3 is a non-square with 3^3 = 6 = p-1;
+    p = 13, a = 10 = 6^2, b = 3 as found by the search (b^2 - 4a = 8 mod 13, a non-residue), e = 7 = (p+1)/2: the norm identity holds,
+    the ladder gives (0, 7) = X^7 and 7^2 = 10. *)
+Example C21_nonvacuous_euler :
+  prime 7 /\ ((3 * 3) mod 7 = 2 mod 7 /\ 2 ^ ((7 - 1) / 2) mod 7 = 1 /\ 3 ^ ((7 - 1) / 2) mod 7 = 7 - 1)%Z /\
+  legendre_symbol 7 3 = (-1)%Z /\ legendre 3 7 = Ok (-1)%Z /\ legendre_symbol 7 2 = 1%Z /\ legendre 2 7 = Ok 1%Z /\
+  euler_is_sqr 7 3 = false /\ euler_is_sqr 7 2 = true /\
+  find_b (find_b_fuel 13) 13 10 1 = Some 3%Z /\ is_square_bf 13 ((3 * 3 - 4 * 10) mod 13) = false /\
+  ladder 13 10 3 7 = (0, 7)%Z /\ congp 13 (Xpow 10 3 (7 + 7)) (0, 10)%Z /\ ((7 * 7) mod 13 = 10)%Z.
 Proof. split; [apply is_prime_small_correct; reflexivity|]. vm_compute. repeat split; auto 20. Qed.
